@@ -206,6 +206,15 @@ theorem init_before_guard :
        .timelock_initialize_config, .timelock_create_instruction_buffer].contains ix = true := by
   intro ix; cases ix <;> decide +kernel
 
+/-- Guards that accept MORE THAN ONE role are order-sensitive (`ensure_has_any_role` asks the roles in
+source order and `has_role` fails for a role that is not enabled): the only such guards are those of
+the three market-config instructions, whose order and role-table configurations are covered by C20
+(`market_keeper_passes_regardless_of_other_role`, native `c20 rt …` runs). -/
+theorem multi_role_guards :
+    ∀ ix : IxId, ∀ rs, (info ix).attr = some rs → rs.length > 1 →
+      [IxId.store_update_market_config, .store_update_market_config_flag, .store_update_market_config_with_buffer].contains ix = true := by
+  intro ix; cases ix <;> decide +kernel
+
 /-- the three market-config instructions accept exactly MARKET_KEEPER or MARKET_CONFIG_KEEPER (used by C20) -/
 theorem market_config_guards :
     (info .store_update_market_config).attr = some [.MARKET_KEEPER, .MARKET_CONFIG_KEEPER] ∧
